@@ -92,6 +92,8 @@ def render(ev, ctx):
         return ('E',)
     if k == 'TO':
         return ('T', ev[1])
+    if k == 'TOO':      # a request timer that belongs to no live request fires
+        return ('O',)
     if k == 'RL':
         return ('R', ev[1])
     if k == 'RAW':
